@@ -33,7 +33,7 @@ ASSUMPTIONS = [
     "dogpile regions are keyed by key only (third-party plugin), so each template gets regions of its own",
 ]
 MIN_NONTRIVIAL = 100
-REQUIRED_COUNTERS = ["renders", "recompiles_under_the_same_uri", "cache_hits_predicted", "reexecutions_after_invalidate", "backend_calls_logged", "kwargs_checked", "disabled_renders"]
+REQUIRED_COUNTERS = ["renders", "inherited_cached_renders", "recompiles_under_the_same_uri", "cache_hits_predicted", "reexecutions_after_invalidate", "backend_calls_logged", "kwargs_checked", "disabled_renders"]
 
 _st = {"counter": 0}
 
@@ -461,14 +461,88 @@ BACKENDS = ["rec", "rec", "rec", "beaker-memory", "beaker-file", "dogpile"]
 
 
 def gen_cases(tier, seed):
+    # (not dogpile: its Mako plugin, which lives outside Mako, keys a region by the section key alone and ignores
+    # Cache.id, so same-named sections of two templates sharing a region collide there by design of that plugin)
+    for b in ("rec", "beaker-memory", "beaker-file"):
+        yield {"kind": "inherit", "backend": b}
     n = 4000 if tier == "quick" else 40000
     per = 10
     for i in range(n // per):
         yield {"kind": "batch", "seed": seed, "index": i, "n": per, "backend": BACKENDS[i % len(BACKENDS)]}
 
 
+def run_inherit(case, res):
+    """cached sections of an INHERITED template: they belong to the base template's cache, whichever child is
+    rendered - executed once for all children, invalidated through the base's cache, never stored under a child"""
+    L = _st["TemplateLookup"]
+    backend = case["backend"]
+    _st["counter"] += 1
+    uid = "%d_%d" % (os.getpid(), _st["counter"])
+    impl, base_args, dog = make_backend(backend, uid + "_inh")
+    Rec.store.clear()
+    Rec.created.clear()
+    del Rec.log[:]
+    Rec.pass_context = False
+    reg = ' cache_region="%s"' % dog if dog else ""
+    lk = L(cache_impl=impl, cache_args=dict(base_args))
+    pre = "/i%s/" % uid
+    lk.put_string(pre + "base.html",
+                  '<%%def name="hdr()" cached="True"%s>H[${tick(\'hdr\')}|${x}]</%%def>'
+                  'BASE(${hdr()}${next.body()})<%%block name="foot" cached="True"%s>F[${tick(\'foot\')}|${x}]</%%block>' % (reg, reg))
+    lk.put_string(pre + "c1.html", '<%%inherit file="base.html"/>C1[${tick(\'c1\')}]<%%def name="own()" cached="True"%s>O1[${tick(\'own1\')}]</%%def>${own()}' % reg)
+    lk.put_string(pre + "c2.html", '<%%inherit file="base.html"/>C2[${tick(\'c2\')}]<%%def name="own()" cached="True"%s>O2[${tick(\'own2\')}]</%%def>${own()}' % reg)
+    ticks = {}
+
+    def tick(n):
+        ticks[n] = ticks.get(n, 0) + 1
+        return ticks[n]
+
+    def render(name, x):
+        return lk.get_template(pre + name).render_unicode(tick=tick, x=x)
+
+    steps = [
+        ("c1.html", "x1", "BASE(H[1|x1]C1[1]O1[1])F[1|x1]"),
+        ("c2.html", "x2", "BASE(H[1|x1]C2[1]O2[1])F[1|x1]"),      # the base's sections are replayed, the child's own def is its own
+        ("c1.html", "x3", "BASE(H[1|x1]C1[2]O1[1])F[1|x1]"),
+        ("inv-hdr", None, None),
+        ("c2.html", "x4", "BASE(H[2|x4]C2[2]O2[1])F[1|x1]"),      # after invalidate_def on the BASE's cache the header runs again
+        ("c1.html", "x5", "BASE(H[2|x4]C1[3]O1[1])F[1|x1]"),
+        ("inv-child-own", None, None),
+        ("c1.html", "x6", "BASE(H[2|x4]C1[4]O1[2])F[1|x1]"),      # invalidating c1's own def leaves c2's and the base's alone
+        ("c2.html", "x7", "BASE(H[2|x4]C2[3]O2[1])F[1|x1]"),
+    ]
+    for name, x, exp in steps:
+        res.evaluations += 1
+        what = "backend=%s inherited cached sections, step %s" % (backend, name)
+        try:
+            if name == "inv-hdr":
+                lk.get_template(pre + "base.html").cache.invalidate_def("hdr")
+                continue
+            if name == "inv-child-own":
+                lk.get_template(pre + "c1.html").cache.invalidate_def("own")
+                continue
+            out = render(name, x)
+        except Exception as e:
+            res.violate("inherit-cache-raises", "%s: %s: %s" % (what, type(e).__name__, e))
+            return
+        res.count("inherited_cached_renders")
+        if out != exp:
+            res.violate("inherited-cached-output", "%s (x=%s) gave %r, expected %r" % (what, x, out, exp), witness="cached def/block of an inherited base rendered through two children")
+            return
+    if backend == "rec":
+        base_id = lk.get_template(pre + "base.html").cache.id
+        for op, cid, key, kw in Rec.log:
+            if key in ("render_hdr", "render_foot") and cid != base_id:
+                res.violate("entry-under-wrong-template", "backend call %s(%r) was made under cache id %r, the section belongs to %r" % (op, key, cid, base_id))
+                break
+    res.nontrivial("c17-inherit", backend)
+
+
 def run_case(case):
     res = common.CaseResult()
+    if case["kind"] == "inherit":
+        run_inherit(case, res)
+        return res
     if case["kind"] == "batch":
         for j in range(case["n"]):
             run_history(dict(case, kind="one", j=j), res)
